@@ -356,7 +356,7 @@ def c07_7(R):
 SENT_FIELDS = ("VirtualSocket.last_sent_ack_nr", "VirtualSocket.last_sent_window")
 
 
-@rule("C07.8", ["C07", "C02"], ["E2", "E6"], "the 'an ACK went out' bookkeeping runs only for a datagram the transport accepted",
+@rule("C07.8", ["C07", "C02", "C09", "C04"], ["E2", "E6"], "the 'an ACK went out' bookkeeping runs only for a datagram the transport accepted",
       "last_sent_ack_nr / last_sent_window (and with them consumed_but_unacked_bytes = 0 and turning the delayed-ACK timer off) are what every ACK trigger is measured against. They are stored by the "
       "on_packet_sent! expansion in the three send_data! closures and in VirtualSocket::on_packet_sent (called from send_control_packet). Each of these stores - for the fn, each call of it - must be "
       "controlled by this_poll.transport_pending = false tested after the try_poll_send_to* call of the same body: if the UDP socket was not writable nothing left, and recording the ACK as sent "
@@ -379,6 +379,33 @@ def c07_8(R):
             for s in st:
                 sites.append((b, s, "store(%s)" % written_field(b, s)))
     R.floor("sent-bookkeeping sites", len(sites), 7)
+    # every place that does the bookkeeping does ALL of it, and every body that hands a datagram to the transport does it (directly or via on_packet_sent)
+    full = ("VirtualSocket.last_sent_ack_nr", "VirtualSocket.last_sent_window", "VirtualSocket.consumed_but_unacked_bytes")
+    doers = set()
+    for b in F.bodies(lambda n: n.startswith("stream_dispatch::VirtualSocket::")):
+        wrote = {written_field(b, s) for s in b.stmts()} & set(full)
+        if not wrote:
+            continue
+        toff = any(call_matches(t, ("stream_dispatch::Timer::turn_off",)) and t.args and trace(b, t.args[0]).last_field == "Timers.ack_delay_timer" for t in b.calls())
+        missing = sorted(set(full) - wrote) + ([] if toff else ["ack_delay_timer.turn_off"])
+        # consumed_but_unacked_bytes is also updated elsewhere (receive path): only bodies that store one of the two last_sent_* fields are bookkeeping sites
+        if not (wrote & set(SENT_FIELDS)):
+            continue
+        doers.add(b.name)
+        if missing:
+            R.fail([b.name, "partial-sent-bookkeeping", "missing=" + ",".join(x.split(".")[-1] for x in missing)],
+                   "a packet that was sent updates only part of the 'what the peer has been told' state (%s missing): every outgoing packet carries ack_nr and window, so all of last_sent_ack_nr, "
+                   "last_sent_window, consumed_but_unacked_bytes and the delayed-ACK timer move together - otherwise ack_to_transmit() keeps comparing against an ever older ack" % ", ".join(missing),
+                   where=b.where(), instance="sent-bookkeeping-complete")
+        else:
+            R.ok("sent-bookkeeping-complete", b.name, "last_sent_ack_nr, last_sent_window, consumed_but_unacked_bytes = 0, ack_delay_timer.turn_off")
+    for b in F.bodies(lambda n: n.startswith("stream_dispatch::VirtualSocket::")):
+        if any((t.resolved or t.callee or "").split("<")[0].endswith(("try_poll_send_to", "try_poll_send_to_vectored")) for t in b.calls()):
+            via = [t for t in b.calls() if (t.resolved or "") in doers]
+            if b.name in doers or via:
+                R.ok("every-send-does-the-bookkeeping", b.name, "directly" if b.name in doers else "via %s" % short_callee(via[0].resolved))
+            else:
+                R.fail([b.name, "send-without-sent-bookkeeping"], "%s hands a datagram to the transport but never records what it acknowledged / advertised" % b.name, where=b.where(), instance="every-send-does-the-bookkeeping")
     for b, it, what in sites:
         sends = [t for t in b.calls() if (t.resolved or t.callee or "").split("<")[0].endswith(("try_poll_send_to", "try_poll_send_to_vectored"))]
         ok = False
